@@ -334,7 +334,7 @@ def graphOf (g : Graphs) (m : Nat) : Diagram.Styles := (alookup m g).getD {}
 
 /-- `TransitionGraphSupport._change_state` on flat machines (state `n` has the path `[n]`) -/
 def graphHooks (o : Diagram.Opts) : Hooks Graphs where
-  pre g m src dst := aset m (Diagram.setPrevious o [] [src] [dst]) g
+  pre g m src dst := aset m (Diagram.setPrevious [] [src] [dst]) g
   post g m st := aset m ((graphOf g m).setNodes [[st]] 1) g
   onAdd g m st := aset m (({} : Diagram.Styles).setNodes [[st]] 1) g
 
